@@ -362,6 +362,37 @@ fn find_cutoff(pars: &[f64], max_cutoff: usize) -> usize {
     cutoff
 }
 
+/// Add-only verification hooks: re-exports of the private likelihood, gradient
+/// and cutoff functions, and an accessor for the fitted state.
+#[cfg(feature = "verif-hooks")]
+pub mod verif_hooks {
+    use super::CoverageHistogram;
+    use crate::ska_dict::bit_encoding::UInt;
+
+    /// Mixture model log-likelihood
+    pub fn log_likelihood(pars: &[f64], counts: &[f64]) -> f64 {
+        super::log_likelihood(pars, counts)
+    }
+    /// Analytic gradient of the log-likelihood
+    pub fn grad_ll(pars: &[f64], counts: &[f64]) -> Vec<f64> {
+        super::grad_ll(pars, counts)
+    }
+    /// Integer root finder for the cutoff
+    pub fn find_cutoff(pars: &[f64], max_cutoff: usize) -> usize {
+        super::find_cutoff(pars, max_cutoff)
+    }
+    /// Fitted (w0, c, cutoff, counts)
+    pub fn fitted<IntT: for<'a> UInt<'a>>(
+        cov: &CoverageHistogram<IntT>,
+    ) -> (f64, f64, usize, Vec<u32>) {
+        (cov.w0, cov.c, cov.cutoff, cov.counts.clone())
+    }
+    /// Multiplicity of every counted split k-mer
+    pub fn kmer_counts<IntT: for<'a> UInt<'a>>(cov: &CoverageHistogram<IntT>) -> Vec<(IntT, u32)> {
+        cov.kmer_dict.iter().map(|(k, v)| (*k, *v)).collect()
+    }
+}
+
 #[cfg(test)]
 mod tests {
     use super::*;
